@@ -299,3 +299,125 @@ func oblContainerAlloc(in ssa.Instruction) (string, bool) {
 	}
 	return "", false
 }
+
+// retEdge is one way a function returns: a Return instruction, or — when the returned values
+// are phis merged in front of the return (result variables assigned on several branches, as
+// after inlining a helper, or a single exit point) — one incoming edge of that merge with the
+// values it carries. Block is the block whose dominating guards hold when returning this way.
+type retEdge struct {
+	Results []ssa.Value
+	blk     *ssa.BasicBlock
+	Ret     *ssa.Return
+	lits    []string // literals established by the conditional edge this return edge starts with
+}
+
+// Holds reports whether the literal holds when the function returns this way.
+func (e retEdge) Holds(lit string) bool {
+	for _, l := range e.lits {
+		if l == lit {
+			return true
+		}
+	}
+	return HoldsAt(e.blk, lit)
+}
+
+// Lits lists every literal known to hold when returning this way.
+func (e retEdge) Lits() []string { return append(append([]string{}, e.lits...), GuardLits(e.blk)...) }
+
+func (e retEdge) Block() *ssa.BasicBlock { return e.blk }
+func (e retEdge) Pos() token.Pos {
+	for _, r := range e.Results {
+		if r != nil && r.Pos().IsValid() {
+			if _, isConst := r.(*ssa.Const); !isConst {
+				return r.Pos()
+			}
+		}
+	}
+	return e.Ret.Pos()
+}
+
+// retEdges lists the return edges of fn.
+func retEdges(fn *ssa.Function) []retEdge {
+	var out []retEdge
+	for _, ret := range returnsOf(fn) {
+		start := retEdge{Results: returnedValues(ret), blk: ret.Block(), Ret: ret}
+		var split func(e retEdge, depth int)
+		split = func(e retEdge, depth int) {
+			// does a result depend on a phi of e.blk, and does e.blk do nothing else?
+			hasPhi := false
+			for _, r := range e.Results {
+				if p, ok := stripConv(r).(*ssa.Phi); ok && p.Block() == e.blk {
+					hasPhi = true
+				}
+			}
+			pure := true
+			for _, in := range e.blk.Instrs {
+				switch in.(type) {
+				case *ssa.Phi, *ssa.Return, *ssa.Jump, *ssa.RunDefers, *ssa.ChangeType, *ssa.MakeInterface, *ssa.ChangeInterface, *ssa.Convert:
+				default:
+					if in != ssa.Instruction(e.Ret) {
+						if st, isSt := in.(*ssa.Store); isSt {
+							if _, isAl := st.Addr.(*ssa.Alloc); isAl {
+								continue
+							}
+						}
+						if ld, isLd := in.(*ssa.UnOp); isLd && ld.Op == token.MUL {
+							if _, isAl := ld.X.(*ssa.Alloc); isAl {
+								continue
+							}
+						}
+						pure = false
+					}
+				}
+			}
+			if !hasPhi || !pure || depth > 6 || len(e.blk.Preds) == 0 {
+				out = append(out, e)
+				return
+			}
+			for k, pred := range e.blk.Preds {
+				ne := retEdge{blk: pred, Ret: e.Ret, lits: e.lits}
+				for _, r := range e.Results {
+					ne.Results = append(ne.Results, substPhi(r, e.blk, k))
+				}
+				// only follow into the predecessor when it ends in an unconditional jump; a
+				// conditional predecessor is where the guard of this edge lives
+				if _, isJump := pred.Instrs[len(pred.Instrs)-1].(*ssa.Jump); isJump {
+					split(ne, depth+1)
+				} else {
+					if ifi, isIf := pred.Instrs[len(pred.Instrs)-1].(*ssa.If); isIf && pred.Succs[0] != pred.Succs[1] {
+						pol := pred.Succs[0] == e.blk
+						ne.lits = append(ne.lits, Lit(ifi.Cond, pol))
+						ne.lits = append(ne.lits, expandBoolPhi(ifi.Cond, pol)...)
+						if call, neg := predCall(ifi.Cond); call != nil {
+							ne.lits = append(ne.lits, predImplied(call, pol != neg)...)
+						}
+					}
+					ne.lits = append(ne.lits, e.lits...)
+					out = append(out, ne)
+				}
+			}
+		}
+		split(start, 0)
+	}
+	return out
+}
+
+// substPhi replaces a phi of block b (possibly under value-preserving wrappers) by its k-th edge.
+func substPhi(v ssa.Value, b *ssa.BasicBlock, k int) ssa.Value {
+	if p, ok := stripConv(v).(*ssa.Phi); ok && p.Block() == b && k < len(p.Edges) {
+		return p.Edges[k]
+	}
+	return v
+}
+
+// errResultE is errResult for a return edge.
+func errResultE(e retEdge) (ssa.Value, bool) {
+	if len(e.Results) == 0 {
+		return nil, false
+	}
+	last := e.Results[len(e.Results)-1]
+	if !isErrorType(last.Type()) {
+		return nil, false
+	}
+	return last, true
+}
